@@ -330,6 +330,11 @@ def corpus():
 
 def shrink_candidates(c):
     if history.is_hist(c):
+        seq = c["seq"]
+        if len(seq) > 5:                               # whole blocks of steps first, then history.shrink's single steps
+            h = len(seq) // 2
+            for keep in (seq[h:], seq[:h], seq[:h // 2] + seq[h:], seq[:h] + seq[h + h // 2:]):
+                yield dict(c, seq=keep)
         yield from history.shrink(c)
         return
     if c["kind"] == "pair":
@@ -348,6 +353,13 @@ def shrink_candidates(c):
                     d["variants"] = [var]
                     yield d
     else:
+        g = c["graphs"]
+        if len(c.get("seeds", [])) > 1:
+            yield dict(c, seeds=[])
+        if len(g) > 5:                                 # blocks of members first (big collections)
+            h = len(g) // 2
+            for keep in (g[h:], g[:h], g[:h // 2] + g[h:], g[:h] + g[h + h // 2:]):
+                yield dict(c, graphs=keep)
         if len(c["graphs"]) > 2:
             for k in range(len(c["graphs"])):
                 d = dict(c); d["graphs"] = c["graphs"][:k] + c["graphs"][k + 1:]; yield d
